@@ -45,6 +45,7 @@ Q2D = ["xy4", "xy9"]
 MODELS = {
     "sphere": "sphere", "cylinder": "cylinder", "core_multi_shell": "core_multi_shell",
     "hardsphere": "hardsphere", "sphere@hardsphere": "sphere@hardsphere",
+    "sphere@hayter_msa": "sphere@hayter_msa",
     "sphere+cylinder": "sphere+cylinder", "broad_peak": "broad_peak", "_spherepy": "_spherepy",
     "pyplug": os.path.join(ASSETS, "pyplug.py"), "allpd": os.path.join(ASSETS, "allpd.py"),
 }
@@ -93,6 +94,17 @@ PARS = {
         "beta": {"structure_factor_mode": 1, "radius_pd": 0.1, "radius_pd_n": 6},
         "reff": {"radius_effective_mode": 1, "radius_pd": 0.2, "radius_pd_n": 5, "radius": 35.0},
     },
+    "sphere@hayter_msa": {
+        # a structure factor whose own effective radius can be dispersed (mode 0: taken from S, not from P)
+        "def": {},
+        "m0": {"radius_effective_mode": 0, "radius_effective": 45.0},
+        "m0pd": {"radius_effective_mode": 0, "radius_effective": 45.0, "radius_effective_pd": 0.2,
+                 "radius_effective_pd_n": 6},
+        "m0pd2": {"radius_effective_mode": 0, "radius_effective": 45.0, "radius_effective_pd": 0.4,
+                  "radius_effective_pd_n": 9, "radius_effective_pd_type": "schulz"},
+        "ppd": {"radius_pd": 0.1, "radius_pd_n": 6, "volfraction": 0.15},
+        "beta": {"structure_factor_mode": 1, "radius_pd": 0.15, "radius_pd_n": 5, "charge": 30.0},
+    },
     "sphere+cylinder": {
         "def": {},
         "pd": {"A_radius_pd": 0.1, "A_radius_pd_n": 5, "B_length_pd": 0.1, "B_length_pd_n": 4,
@@ -124,7 +136,7 @@ PARS = {
 }
 CUTOFFS = [0.0, 0.0, 1e-5, 1e-3]
 DATA_KINDS = ["perfect", "pinhole", "slit", "2d", "sesans"]
-SV_MODELS = ["sphere", "cylinder", "core_multi_shell", "sphere@hardsphere", "hardsphere", "broad_peak",
+SV_MODELS = ["sphere", "cylinder", "core_multi_shell", "sphere@hardsphere", "sphere@hayter_msa", "hardsphere", "broad_peak",
              "pyplug", "allpd"]
 SV_SET = {
     "sphere": [("radius", 80.0), ("scale", 0.3), ("background", 0.05), ("sld", 2.0), ("sld_M0", 4.0)],
@@ -133,6 +145,8 @@ SV_SET = {
     "sphere@hardsphere": [("radius", 45.0), ("volfraction", 0.3), ("structure_factor_mode", 1),
                           ("radius_effective_mode", 1)],
     "hardsphere": [("volfraction", 0.1), ("radius_effective", 25.0)],
+    "sphere@hayter_msa": [("radius_effective_mode", 0), ("radius_effective", 45.0), ("radius_effective.width", 0.2),
+                          ("radius_effective.npts", 6), ("charge", 30.0), ("volfraction", 0.1)],
     "broad_peak": [("peak_pos", 0.08), ("porod_exp", 2.5)],
     "pyplug": [("radius", 22.0), ("thick", 3.0)],
     "allpd": [("r", 12.0), ("r", -10.0)],
@@ -741,7 +755,7 @@ def gen_history(w, n_ops):
             keys = [x for x in keys if x != "pd4"]
         pars = w.choice(keys)
         fn = "Fq" if (model in FQ_MODELS and w.random() < 0.3) else "Iq"
-        if model in ("sphere@hardsphere", "sphere+cylinder") and w.random() < 0.5:
+        if model in ("sphere@hardsphere", "sphere@hayter_msa", "sphere+cylinder") and w.random() < 0.5:
             fn = "IqR"
         ops.append({"op": "call", "k": k["id"], "model": model, "fn": fn, "pars": pars,
                     "cutoff": w.choice(CUTOFFS), "mono": w.random() < 0.1})
@@ -844,8 +858,8 @@ def sweep_configs(tier):
     """Every ordered pair of requests from the pool on one kernel of each kind
     (result-buffer and scratch-vector leaks are pairwise phenomena)."""
     out = []
-    models = sorted(MODELS) if tier != "quick" else ["sphere", "cylinder", "sphere@hardsphere", "_spherepy",
-                                                      "pyplug", "allpd"]
+    models = sorted(m for m in MODELS if m not in GENERIC) if tier != "quick" else \
+        ["sphere", "cylinder", "sphere@hardsphere", "sphere@hayter_msa", "_spherepy", "pyplug", "allpd"]
     for model in models:
         keys = [k for k in sorted(PARS[model]) if k not in ("pd4", "bad", "toomany")]
         for fn in (("Iq", "Fq") if model in FQ_MODELS else ("Iq",)):
